@@ -4,11 +4,15 @@ CONSTANTS
   Active = {"e1"}
   ClassIn = {"c", "C", "worldspawn"}
   NameIn = {"", "a", "A"}
-  NameU = {"", "a", "A", "a1", "A1", "a2", "A2"}
+  NameU = {"", "a", "A", "a1", "A1"}
   KeySp = {"targetname", "TargetName"}
   Prefixes = {"", "a"}
   IterOps = {"create_ent", "remove_ent", "set_class", "set_name", "clear"}
   CopyMaps = {"m1", "m2"}
+  PClass = {"c", "C"}
+  PNames = {"", "a", "A"}
+  SpawnIn = {"worldspawn", "WorldSpawn", "c"}
+  SpawnQuiet = TRUE
 INVARIANT Agree
 INVARIANT SpawnRule
 INVARIANT SearchAgree
@@ -16,6 +20,8 @@ INVARIANT NoEmptySets
 INVARIANT OnlyOwn
 PROPERTY Isolated
 PROPERTY SpawnFixed
+CONSTRAINT PassiveBound
+CONSTRAINT SpawnBound
 VIEW View
 ACTION_CONSTRAINT Emit
 CHECK_DEADLOCK FALSE
